@@ -6,9 +6,37 @@ From Coq Require Import List Bool Arith.
 Import ListNotations.
 Require Import PonyV.Model.C03Bexp PonyV.Model.C03Decomp.
 
-Inductive lit : Type := Lit (neg : bool) (n : nat).        (* a  |  not a *)
+(* literals: an operand that contains no and/or/if-else.  Names in a, b, n are atoms. *)
+Inductive lit : Type :=
+| Lit (neg : bool) (n : nat)                    (* a        |  not a *)
+| LCmp (neg : bool) (ne : bool) (a b : nat)     (* a == b   |  a != b   |  not a == b  |  not a != b *)
+| LIsN (isnot : bool) (a : nat).                (* a is None  |  a is not None *)
 
-Definition lit_bexp (l : lit) : bexp := match l with Lit false n => Atom n | Lit true n => Not (Atom n) end.
+Definition lit_bexp (l : lit) : bexp :=
+  match l with
+  | Lit false n => Atom n
+  | Lit true n => Not (Atom n)
+  | LCmp false ne a b => Cmp ne (Atom a) (Atom b)
+  | LCmp true ne a b => Not (Cmp ne (Atom a) (Atom b))
+  | LIsN isnot a => IsNone isnot (Atom a)
+  end.
+
+(* code of a literal as a condition: its value, then ONE conditional jump *)
+Definition lval (l : lit) : list instr :=
+  match l with
+  | Lit _ n => [ILoad n]
+  | LCmp _ ne a b => [ILoad a; ILoad b; ICmp ne]
+  | LIsN _ a => [ILoad a]
+  end.
+(* the jump of compiler_jump_if(l, next, c): taken when the truth value of l is c *)
+Definition ljmp (l : lit) (c : bool) (next : tgt) : instr :=
+  match l with
+  | Lit neg _ => jump_to (if neg then negb c else c) next
+  | LCmp neg _ _ _ => jump_to (if neg then negb c else c) next
+  | LIsN isnot _ => jump_none_to (if isnot then negb c else c) next
+  end.
+Definition lw (l : lit) : nat := length (lval l) + 1.
+Fixpoint lws (ls : list lit) : nat := match ls with [] => 0 | l :: r => lw l + lws r end.
 
 (* Python has no one-operand `and` / `or`: a group of width 1 is the operand itself *)
 Definition mk_and (ls : list lit) : bexp := match ls with [x] => lit_bexp x | _ => And (map lit_bexp ls) end.
@@ -18,18 +46,19 @@ Definition dnf (alts : list (list lit)) : bexp := mk_or_of (map mk_and alts).
 Definition wf_alts (alts : list (list lit)) : Prop := alts <> [] /\ Forall (fun ls => ls <> []) alts.
 
 (* the instruction stream of `(x for x in T if <dnf alts>)` after Pony's normalisation, written out:
-   every literal is LOAD ; conditional jump.  In the last alternative every literal jumps back to the loop top when it is
-   false; in an earlier alternative the last literal jumps to the body when true, the others to the next alternative when false. *)
+   every literal is its value followed by a conditional jump.  In the last alternative every literal jumps back to the loop
+   top when it is false; in an earlier alternative the last literal jumps to the body when true, the others to the next
+   alternative when false. *)
 Fixpoint and_back (ls : list lit) : list instr :=
-  match ls with [] => [] | Lit neg n :: r => ILoad n :: IBack neg :: and_back r end.
+  match ls with [] => [] | l :: r => lval l ++ ljmp l false TTop :: and_back r end.
 
 Fixpoint alt_fwd (ls : list lit) (nextalt body : nat) : list instr :=
   match ls with
   | [] => []
-  | Lit neg n :: r => match r with
-                      | [] => [ILoad n; IJump (negb neg) body]
-                      | _ :: _ => ILoad n :: IJump neg nextalt :: alt_fwd r nextalt body
-                      end
+  | l :: r => match r with
+              | [] => lval l ++ [ljmp l true (TAt body)]
+              | _ :: _ => lval l ++ ljmp l false (TAt nextalt) :: alt_fwd r nextalt body
+              end
   end.
 
 Fixpoint dnf_code (alts : list (list lit)) (p body : nat) : list instr :=
@@ -37,12 +66,13 @@ Fixpoint dnf_code (alts : list (list lit)) (p body : nat) : list instr :=
   | [] => []
   | ls :: r => match r with
                | [] => and_back ls
-               | _ :: _ => alt_fwd ls (p + 2 * length ls) body ++ dnf_code r (p + 2 * length ls) body
+               | _ :: _ => alt_fwd ls (p + lws ls) body ++ dnf_code r (p + lws ls) body
                end
   end.
 
+(* number of instructions of all literals *)
 Fixpoint total_lits (alts : list (list lit)) : nat :=
-  match alts with [] => 0 | ls :: r => length ls + total_lits r end.
+  match alts with [] => 0 | ls :: r => lws ls + total_lits r end.
 
 (* ------------------------------------------------------------------------------------------------
    class of expressions of the compile-soundness theorem (Proofs/C03CompileSound.v) *)
@@ -68,14 +98,31 @@ Definition cnf (cls : list (list lit)) : bexp := mk_and_of (map mk_or cls).
 Fixpoint or_fwd (ls : list lit) (nextcl : nat) : list instr :=
   match ls with
   | [] => []
-  | Lit neg n :: r => match r with
-                      | [] => [ILoad n; IBack neg]
-                      | _ :: _ => ILoad n :: IJump (negb neg) nextcl :: or_fwd r nextcl
-                      end
+  | l :: r => match r with
+              | [] => lval l ++ [ljmp l false TTop]
+              | _ :: _ => lval l ++ ljmp l true (TAt nextcl) :: or_fwd r nextcl
+              end
   end.
 
 Fixpoint cnf_code (cls : list (list lit)) (p : nat) : list instr :=
   match cls with
   | [] => []
-  | ls :: r => or_fwd ls (p + 2 * length ls) ++ cnf_code r (p + 2 * length ls)
+  | ls :: r => or_fwd ls (p + lws ls) ++ cnf_code r (p + lws ls)
   end.
+
+(* well-formed expressions: every and/or has at least one operand (Python cannot express an empty one); conditional
+   expressions allowed *)
+Fixpoint wfe (e : bexp) : bool :=
+  match e with
+  | Atom _ | Const _ => true
+  | Not e1 | IsNone _ e1 => wfe e1
+  | And l | Or l => match l with [] => false | _ => (fix go (l : list bexp) : bool := match l with [] => true | x :: r => wfe x && go r end) l end
+  | IfExp c a b => wfe c && wfe a && wfe b
+  | Cmp _ a b => wfe a && wfe b
+  end.
+
+(* ------------------------------------------------------------------------------------------------
+   a family with one conditional expression, in ELEMENT position (Proofs/C03RoundtripIf.v):
+       (xa if t1 and ... and tn else xb  for x in T)        n >= 1, all operands plain names *)
+Definition mk_and_atoms (ts : list nat) : bexp := match ts with [t] => Atom t | _ => And (map Atom ts) end.
+Definition if_and (ts : list nat) (xa xb : nat) : bexp := IfExp (mk_and_atoms ts) (Atom xa) (Atom xb).
